@@ -1,5 +1,5 @@
 from pat import *
-from expr import fmt
+from expr import fmt, walk
 from harness import Skip
 from rules.ts import check_table
 from rules.common import eqcov_impl
@@ -25,7 +25,133 @@ def V(subject, name):
     return ("variant", subject, name)
 
 
+def sketch_rules(ctx):
+    """R-C04.S: the sketch is computed over every candidate prefix with the specified formulas
+    (draft-18 section 8.2.2/8.2.3): sketch = corr + sum_i (d_i*r_i, d_i*r_i^2, a_i*r_i); finish:
+    A*s0 + B (+ s0^2 - s1 - s2 for the helper)."""
+    from poly import to_poly, Poly
+    from rules.common import adapters_in
+    from guards import block_conditions, fmt_cond
+    rule = "R-C04.S.sketch"
+    try:
+        f = ctx.fn(rule, name="eval_and_sketch", self_adt=POPLAR1)
+        g = ctx.guards(f)
+        prefixes = Field(Arg(6), "prefixes")
+        adds = [(bi, g.eb.call_expr(t)) for bi, t in f.body.calls() if t.callee.name == "add_assign"]
+        sk = {}
+        for bi, ce in adds:
+            tgt, val = ce[2][0], ce[2][1]
+            if tgt[0] == "index" and tgt[1][0] == "phi" and tgt[1][2] == "sketch_share" or (tgt[0] == "index" and Lit()(tgt[2])):
+                k = tgt[2][1] if tgt[2][0] == "lit" else None
+                sk[k] = (bi, val, tgt)
+        key = "%s:%s:three-updates" % (rule, f.id)
+        if sorted(k for k in sk if k is not None) != [0, 1, 2] or len(adds) != 3:
+            ctx.bad(rule, key, "expected exactly the three updates sketch[0..2] += ..; found %s" % [fmt(a[1])[:80] for a in adds], loc=f.loc)
+            raise Skip()
+        # atoms
+        is_share = lambda e: Mentions(Call("eval"))(e)
+
+        def atomize(e):
+            if e[0] == "index" and is_share(e) and Lit()(e[2]):
+                return ("share%d" % e[2][1],)
+            if Call("get")(e) and not Mentions(Arg(9))(e):
+                return ("r",)
+            return None
+        d0, d1, r = Poly.atom(("share0",)), Poly.atom(("share1",)), Poly.atom(("r",))
+        want = {0: d0 * r, 1: d0 * r * r, 2: d1 * r}
+        okk = True
+        det = []
+        for k in (0, 1, 2):
+            got = to_poly(sk[k][1], atomize)
+            det.append("sketch[%d] += %r" % (k, got))
+            if got != want[k]:
+                okk = False
+        if okk:
+            ctx.ok(rule, key, "; ".join(det), loc=f.loc, sample={"rule": rule, "formulas": det})
+        else:
+            ctx.bad(rule, key, "sketch update formulas differ from (d*r, d*r^2, a*r): %s" % "; ".join(det), loc=f.loc)
+        # same loop, over all candidate prefixes, one r and one IDPF evaluation per prefix
+        key = "%s:%s:every-candidate-contributes" % (rule, f.id)
+        loops = set()
+        for k in (0, 1, 2):
+            lp = g.loop_of(sk[k][0])
+            loops.add(lp[0] if lp else None)
+        good = len(loops) == 1 and None not in loops
+        src = None
+        if good:
+            class _E:
+                block = sk[0][0]
+            src = ctx.loop_source(f, _E)
+            good = src is not None and Mentions(prefixes)(src) and not adapters_in(src) and \
+                not any(isinstance(x, tuple) and x[0] == "call" and x[1].endswith("Iterator::zip") for x in walk(src))
+            lp = g.loop_of(sk[0][0])
+            gets = [bi for bi, t in f.body.calls() if t.callee.name == "get" and bi in lp[1]]
+            evals = [bi for bi, t in f.body.calls() if t.callee.name == "eval" and bi in lp[1]]
+            pushes = [bi for bi, t in f.body.calls() if t.callee.name == "push" and bi in lp[1]]
+            latches = [t for (t, hh) in f.body.back_edges() if hh == lp[0]]
+            every = lambda bs: len(bs) == 1 and all(f.body.dominates(bs[0], t) for t in latches)
+            good = good and every(gets) and every(evals) and every(pushes) and all(every([sk[k][0]]) for k in (0, 1, 2))
+        if good:
+            ctx.ok(rule, key, "one IDPF evaluation, one verification-randomness draw, three sketch updates and one output element per candidate, over %s" % fmt(src)[:80], loc=f.loc)
+        else:
+            ctx.bad(rule, key, "the sketch loop does not cover every candidate prefix exactly once (source=%s)" % (fmt(src)[:160] if src else None), loc=f.loc)
+        # initial sketch share = three draws from the correlated randomness stream
+        key = "%s:%s:initial-share" % (rule, f.id)
+        base = sk[0][2][1]
+        init = g.eb.init_expr(base[1]) if base[0] == "phi" else None
+        if init is not None and init[0] == "agg" and init[1] == "vec" and len(init[2]) == 3 and all(Call("get", Arg(9))(x) for x in init[2]):
+            ctx.ok(rule, key, "sketch starts as [corr.get(), corr.get(), corr.get()]", loc=f.loc)
+        else:
+            ctx.bad(rule, key, "sketch share does not start from three draws of the correlated-randomness stream: %s" % (fmt(init)[:120] if init else None), loc=f.loc)
+        # the pushed output element is share[0] of the same evaluation
+        key = "%s:%s:output-is-data-share" % (rule, f.id)
+        ps = [g.eb.call_expr(t) for bi, t in f.body.calls() if t.callee.name == "push"]
+        if len(ps) == 1 and to_poly(ps[0][2][1], atomize) == d0:
+            ctx.ok(rule, key, "out_share.push(share[0])", loc=f.loc)
+        else:
+            ctx.bad(rule, key, "the output share element is not the data share of the evaluated prefix", loc=f.loc)
+    except Skip:
+        pass
+    try:
+        f = ctx.fn(rule, name="finish_sketch", id_re=r"^vdaf::poplar1::finish_sketch$")
+        g = ctx.guards(f)
+        sketch, A, B, lead = Arg(1), Arg(2), Arg(3), Arg(4)
+
+        def atomize(e):
+            if Index(sketch, Lit())(e):
+                return ("s%d" % e[2][1],)
+            if A(e):
+                return ("A",)
+            if B(e):
+                return ("B",)
+            return None
+        s0, s1, s2, a, b = (Poly.atom((n,)) for n in ("s0", "s1", "s2", "A", "B"))
+        key = "%s:%s" % (rule, f.id)
+        good = False
+        det = ""
+        if len(g.retdefs) == 1 and g.retdefs[0].expr[0] == "agg" and g.retdefs[0].expr[1] == "vec" and len(g.retdefs[0].expr[2]) == 1:
+            v = g.retdefs[0].expr[2][0]
+            if v[0] == "phi":
+                init = g.eb.init_expr(v[1])
+                adds = [(bi, g.eb.call_expr(t)) for bi, t in f.body.calls() if t.callee.name == "add_assign"]
+                if init is not None and len(adds) == 1 and adds[0][1][2][0] == v:
+                    conds = block_conditions(g, adds[0][0])
+                    only_helper = any(c[0] == "truth" and c[2] is False and lead(c[1]) for c in conds)
+                    p0 = to_poly(init, atomize)
+                    p1 = to_poly(adds[0][1][2][1], atomize)
+                    det = "base=%r ; helper adds %r (guard: %s)" % (p0, p1, [fmt_cond(c) for c in conds])
+                    good = p0 == a * s0 + b and p1 == s0 * s0 - s1 - s2 and only_helper
+        if good:
+            ctx.ok(rule, key, "finish_sketch: " + det, loc=f.loc, sample={"rule": rule, "formula": det})
+        else:
+            ctx.bad(rule, key, "finish_sketch is not [A*s0 + B (+ s0^2 - s1 - s2 iff !is_leader)]: %s" % det, loc=f.loc)
+    except Skip:
+        pass
+    ctx.floor(rule, 5)
+
+
 def run(ctx):
+    sketch_rules(ctx)
     rule = "R-C04.T.verify_next"
     try:
         f = ctx.fn(rule, name="verify_next", trait="Aggregator", self_adt=POPLAR1)
@@ -137,7 +263,14 @@ def run(ctx):
         else:
             ctx.bad(rule, key, "an accepting return does not require both verifier shares to have the same field kind: %s" % det, loc=f.loc)
         # error of next_message propagated
-        ctx.require_try_call(rule, f, Call("next_message"), dominates=False, desc="next_message(..)?")
+        nprop = sum(1 for ed in g.edges if ed.cond[0] == "variant" and ed.cond[2] == "Break" and ed.cond[3] and
+                    ed.cond[1][0] == "call" and ed.cond[1][2] and Call("next_message")(ed.cond[1][2][0]) and
+                    set(rd.kind for rd in ed.leads) <= {"err"} and ed.leads)
+        key = "%s:%s:next_message-error-propagated" % (rule, f.id)
+        if nprop == 2:
+            ctx.ok(rule, key, "next_message(..)? is propagated in both the Inner and the Leaf arm", loc=f.loc)
+        else:
+            ctx.bad(rule, key, "the error of next_message is propagated in %d arm(s), expected both" % nprop, loc=f.loc)
         # closures: Inner arm wraps SketchInner, Leaf arm wraps SketchLeaf
         for rd, conds in table:
             vs = [c[2] for c in conds if c[0] == "variant" and c[3] and c[2] in ("Inner", "Leaf")]
